@@ -182,7 +182,8 @@ Theorem py_range_nth a b s i : (i < length (py_range a b s))%nat ->
   nth i (py_range a b s) 0 = a + Z.of_nat i * s.
 Proof.
   unfold py_range. rewrite map_length, seq_length. intros Hi.
-  rewrite (nth_indep _ 0 ((fun i => a + Z.of_nat i * s) 0%nat)) by now rewrite map_length, seq_length.
+  set (f := fun i : nat => a + Z.of_nat i * s).
+  rewrite (nth_indep _ 0 (f 0%nat)) by now rewrite map_length, seq_length.
   rewrite map_nth, seq_nth by exact Hi. reflexivity.
 Qed.
 
@@ -218,7 +219,7 @@ Proof.
   - cbn. now rewrite Nat.add_0_r.
   - rewrite zeros_S. cbn [chain_trace x_range x_step range_tag snd].
     assert (E : (0 <? Z.of_nat (S n))%Z = true) by (apply Z.ltb_lt; lia). rewrite E.
-    cbn [flat_map obs_of app fin_obs map]. rewrite temitted_app2.
+    rewrite temitted_app2. cbn [flat_map obs_of app fin_obs map].
     replace (Z.of_nat (S n) - 1)%Z with (Z.of_nat n) by lia. rewrite (IH (cur + step)%Z (S tag) (S k)).
     cbn [temitted flat_map snd fst app seq map indexed nexts].
     rewrite <- seq_shift, map_map. f_equal; [f_equal; f_equal; lia|].
@@ -240,4 +241,550 @@ Proof.
   assert (E : range_len a b s = Z.of_nat n) by (subst n; lia). rewrite E.
   change (chain_trace (x_range a b s)) with (chain_trace (x_range 0 0 s)).
   rewrite range_chain_trace. unfold py_range. fold n. reflexivity.
+Qed.
+
+(* ------------------------------------------------------------------------ *)
+(* projections of a trace                                                     *)
+Definition ttimers {B} (tr : list (nat * obs B)) : list (nat * (nat * Z)) :=
+  flat_map (fun x => match snd x with OTimer t d => [(fst x, (t, d))] | _ => [] end) tr.
+Definition cvals {B} (cs : list (cmd B)) : list B :=
+  flat_map (fun c => match c with CEmit b => [b] | _ => [] end) cs.
+Definition tfin {B} (k : nat) (f : fin) : list (nat * ev B) :=
+  match f with Cont => [] | Complete => [(k, Done)] | Fail e => [(k, Err e)] end.
+
+Lemma ttimers_app {B} (a b : list (nat * obs B)) : ttimers (a ++ b) = ttimers a ++ ttimers b.
+Proof. apply flat_map_app. Qed.
+
+Lemma temitted_group {B} k (cs : list (cmd B)) f :
+  temitted (map (fun o => (k, o)) (flat_map obs_of cs ++ fin_obs f))
+  = map (fun b => (k, Next b)) (cvals cs) ++ tfin k f.
+Proof.
+  rewrite map_app, temitted_app2. f_equal.
+  - unfold temitted, cvals in *. induction cs as [|c t IH]; [reflexivity|].
+    destruct c; cbn [flat_map obs_of map app fst snd]; rewrite ?IH; reflexivity.
+  - destruct f; reflexivity.
+Qed.
+
+(* ------------------------------------------------------------------------ *)
+(* from_iterable / of                                                         *)
+Lemma simple_app {B} (a b : list (cmd B)) : forallb simple (a ++ b) = forallb simple a && forallb simple b.
+Proof. apply forallb_app. Qed.
+Lemma ctimers_app {B} (a b : list (cmd B)) : ctimers (a ++ b) = ctimers a ++ ctimers b.
+Proof. apply flat_map_app. Qed.
+
+Lemma iter_cmds_simple spy items : forall i b,
+  forallb simple (fst (iter_cmds spy items i b)) = true /\ ctimers (fst (iter_cmds spy items i b)) = [].
+Proof.
+  assert (P : forall i, forallb simple (if spy then [CEffect (e_pull i)] else [] : list (cmd Z)) = true
+                        /\ ctimers (if spy then [CEffect (e_pull i)] else [] : list (cmd Z)) = [])
+    by (intros i; destruct spy; auto).
+  induction items as [|[v|e] t IH]; intros i b; destruct b as [[|k]|]; cbn [iter_cmds option_map fst]; auto;
+    try apply P.
+  - destruct (IH (i + 1)%Z (Some (pred (S k)))) as [H1 H2].
+    destruct (iter_cmds spy t (i + 1) (Some (pred (S k)))) as [cs f]. cbn [fst snd] in *.
+    change (CEmit v :: cs) with ([CEmit v] ++ cs). rewrite !simple_app, !ctimers_app, H1, H2.
+    destruct (P i) as [P1 P2]. rewrite P1, P2. auto.
+  - destruct (IH (i + 1)%Z None) as [H1 H2].
+    destruct (iter_cmds spy t (i + 1) None) as [cs f]. cbn [fst snd] in *.
+    change (CEmit v :: cs) with ([CEmit v] ++ cs). rewrite !simple_app, !ctimers_app, H1, H2.
+    destruct (P i) as [P1 P2]. rewrite P1, P2. auto.
+Qed.
+
+Lemma iter_cmds_none spy items : forall i, snd (iter_cmds spy items i None) <> Cont.
+Proof.
+  induction items as [|[v|e] t IH]; intros i; cbn [iter_cmds option_map]; try discriminate.
+  specialize (IH (i + 1)%Z). destruct (iter_cmds spy t (i + 1) None) as [cs f]. exact IH.
+Qed.
+
+Lemma from_iterable_chain spy items : chain_ok (x_from_iterable spy items None) (fun _ => 0).
+Proof.
+  intros s now t. cbn [x_from_iterable x_step fst snd].
+  destruct (iter_cmds_simple spy items 0%Z None) as [H1 H2]. pose proof (iter_cmds_none spy items 0%Z) as H3.
+  split; [exact H1|]. destruct (snd (iter_cmds spy items 0 None)); [congruence|exact H2|exact H2].
+Qed.
+
+Lemma iter_cmds_values spy vs tl : (tl = [] \/ exists e r, tl = Raise e :: r) -> forall i,
+  cvals (fst (iter_cmds spy (map Ok vs ++ tl) i None)) = vs
+  /\ snd (iter_cmds spy (map Ok vs ++ tl) i None)
+     = match tl with Raise e :: _ => Fail e | _ => Complete end.
+Proof.
+  intros Htl. induction vs as [|v t IH]; intros i; cbn [map app iter_cmds option_map].
+  - destruct Htl as [->|[e [r ->]]]; destruct spy; cbn; auto.
+  - destruct (IH (i + 1)%Z) as [H1 H2]. destruct (iter_cmds spy (map Ok t ++ tl) (i + 1) None) as [cs f].
+    cbn [fst snd] in *. subst t. destruct spy; cbn [app cvals flat_map]; auto.
+Qed.
+
+(* one scheduled action emits every item, in order, then completes -- or
+   on_error at the position where the iterator raises *)
+Theorem from_iterable_spec spy vs tl now : (tl = [] \/ exists e r, tl = Raise e :: r) ->
+  temitted (fst (run (x_from_iterable spy (map Ok vs ++ tl) None) [(now, ITick 0)]))
+  = map (fun v => (1, Next v)) vs ++ [(1, match tl with Raise e :: _ => Err e | _ => Done end)].
+Proof.
+  intros Htl.
+  pose proof (chain_run0 _ _ (from_iterable_chain spy (map Ok vs ++ tl)) tt [CTimer 0 0%Z] [now] eq_refl eq_refl eq_refl) as C.
+  cbn [tick_ins] in C. rewrite C. clear C.
+  rewrite temitted_app2.
+  replace (temitted (map (fun o : obs Z => (0, o)) (flat_map obs_of [CTimer 0 0%Z]))) with (@nil (nat * ev Z)) by reflexivity.
+  cbn [app chain_trace x_from_iterable x_step].
+  destruct (iter_cmds_values spy vs tl Htl 0%Z) as [H1 H2].
+  destruct (iter_cmds spy (map Ok vs ++ tl) 0 None) as [cs f]. cbn [fst snd] in *.
+  assert (E : temitted (map (fun o => (1, o)) (flat_map obs_of cs ++ fin_obs f) ++ match f with Cont => [] | _ => [] end)
+              = map (fun b => (1, Next b)) (cvals cs) ++ tfin 1 f).
+  { rewrite temitted_app2, temitted_group. destruct f; cbn; now rewrite app_nil_r. }
+  rewrite E, H1, H2. destruct Htl as [->|[e [r ->]]]; reflexivity.
+Qed.
+
+(* the `disposed` flag: a subscriber disposing inside its k-th on_next gets k
+   elements, no terminal notification, and the iterator is pulled k times *)
+Definition cpulls {B} (cs : list (cmd B)) : list Z :=
+  flat_map (fun c => match c with CEffect n => [n] | _ => [] end) cs.
+
+Lemma iter_cmds_zero spy items i : iter_cmds spy items i (Some 0) = ([], Cont).
+Proof. destruct items; reflexivity. Qed.
+
+Local Arguments e_pull : simpl never.
+
+Lemma iter_cmds_budget : forall vs k tl i, (0 < k <= length vs)%nat ->
+  cvals (fst (iter_cmds true (map Ok vs ++ tl) i (Some k))) = firstn k vs
+  /\ cpulls (fst (iter_cmds true (map Ok vs ++ tl) i (Some k)))
+     = map (fun j => e_pull (i + Z.of_nat j)) (seq 0 k)
+  /\ snd (iter_cmds true (map Ok vs ++ tl) i (Some k)) = Cont.
+Proof.
+  induction vs as [|v t IH]; intros k tl i Hk; [cbn in Hk; lia|].
+  destruct k as [|k]; [lia|]. cbn [map app iter_cmds option_map pred].
+  destruct k as [|k].
+  - rewrite iter_cmds_zero. cbn. replace (i + 0)%Z with i by lia. auto.
+  - cbn [length] in Hk. destruct (IH (S k) tl (i + 1)%Z ltac:(lia)) as [H1 [H2 H3]].
+    destruct (iter_cmds true (map Ok t ++ tl) (i + 1) (Some (S k))) as [cs f]. cbn [fst snd] in *.
+    split; [|split]; [unfold cvals in *; cbn [app flat_map firstn]; now rewrite H1| |exact H3].
+    unfold cpulls in *. cbn [app flat_map]. rewrite H2.
+    change (seq 0 (S (S k))) with (0 :: seq 1 (S k)). rewrite <- (seq_shift (S k) 0).
+    cbn [map]. f_equal; [f_equal; lia|]. rewrite map_map. apply map_ext. intros j. f_equal. lia.
+Qed.
+
+Theorem from_iterable_disposed_flag vs k tl now : (0 < k <= length vs)%nat ->
+  let tr := fst (run (x_from_iterable true (map Ok vs ++ tl) (Some k)) [(now, ITick 0)]) in
+  temitted tr = map (fun v => (1, Next v)) (firstn k vs)
+  /\ flat_map (fun x => match snd x with OEffect n => [n] | _ => [] end) tr
+     = map (fun j => e_pull (Z.of_nat j)) (seq 0 k).
+Proof.
+  intros Hk. destruct (iter_cmds_budget vs k tl 0%Z Hk) as [H1 [H2 H3]].
+  destruct (iter_cmds_simple true (map Ok vs ++ tl) 0%Z (Some k)) as [S1 S2].
+  unfold run. cbn [x_from_iterable x_start apply_cmds finish fst snd app map r_live r_timers r_stopped].
+  cbn [run_from]. rewrite rstep_tick. cbn [x_from_iterable x_step].
+  destruct (iter_cmds true (map Ok vs ++ tl) 0 (Some k)) as [cs f]. cbn [fst snd] in *. subst f.
+  rewrite (apply_simple cs _ S1). cbn [finish fst snd r_live r_timers r_stopped app].
+  rewrite !app_nil_r. split.
+  - change (temitted ((0, OTimer 0 0%Z) :: map (fun x => (1, x)) (flat_map obs_of cs))
+            = map (fun v => (1, Next v)) (firstn k vs)).
+    cbn [temitted flat_map snd app]. fold (temitted (map (fun x : obs Z => (1, x)) (flat_map obs_of cs))).
+    pose proof (temitted_group 1 cs Cont) as G. cbn [fin_obs tfin] in G. rewrite !app_nil_r in G.
+    rewrite G, H1. reflexivity.
+  - cbn [flat_map snd app]. change (fun j : nat => e_pull (Z.of_nat j)) with (fun j : nat => e_pull (0 + Z.of_nat j)).
+    rewrite <- H2. clear. unfold cpulls.
+    induction cs as [|c t IH]; [reflexivity|]. destruct c; cbn [flat_map obs_of map app snd]; rewrite ?IH; reflexivity.
+Qed.
+
+(* ------------------------------------------------------------------------ *)
+(* return_value, empty, throw, never, timer(d): the whole trace                *)
+Theorem return_value_spec v now :
+  fst (run (x_return_value v) [(now, ITick 0)])
+  = [(0, OTimer 0 0%Z); (1, OEmit (Next v)); (1, OEmit Done)].
+Proof. reflexivity. Qed.
+
+Theorem empty_spec now : fst (run x_empty [(now, ITick 0)]) = [(0, OTimer 0 0%Z); (1, OEmit Done)].
+Proof. reflexivity. Qed.
+
+Theorem throw_spec e now : fst (run (x_throw e) [(now, ITick 0)]) = [(0, OTimer 0 0%Z); (1, OEmit (Err e))].
+Proof. reflexivity. Qed.
+
+(* timer(d): one timer with delay max(d, 0); when it fires: 0, then completion *)
+Theorem timer_spec d now :
+  fst (run (x_timer d) [(now, ITick 0)])
+  = [(0, OTimer 0 (Z.max d 0)); (1, OEmit (Next 0%Z)); (1, OEmit Done)].
+Proof. reflexivity. Qed.
+
+(* never: nothing at all, whatever happens at its boundary *)
+Lemma never_step r now i : r_live r = [] -> r_timers r = [] ->
+  exists r', rstep x_never tt r now i = (tt, r', []) /\ r_live r' = [] /\ r_timers r' = [].
+Proof.
+  intros Hl Ht. unfold rstep. destruct (r_stopped r); [exists r; auto|].
+  destruct i as [j e|tag|].
+  - rewrite Hl. exists r. auto.
+  - rewrite Ht. exists r. auto.
+  - exists (RState [] [] true). cbn [x_never x_step idle apply_cmds release fst snd filter app]. rewrite Hl, Ht. auto.
+Qed.
+
+Lemma never_from ins : forall r k, r_live r = [] -> r_timers r = [] ->
+  fst (run_from x_never tt r k ins) = [].
+Proof.
+  induction ins as [|[now i] rest IH]; intros r k Hl Ht; [reflexivity|].
+  cbn [run_from]. destruct (never_step r now i Hl Ht) as [r' [E [Hl' Ht']]]. rewrite E.
+  specialize (IH r' (S k) Hl' Ht'). destruct (run_from x_never tt r' (S k) rest) as [tr rf].
+  cbn [fst] in *. now subst tr.
+Qed.
+
+Theorem never_spec ins : fst (run x_never ins) = [].
+Proof.
+  unfold run. cbn [x_never x_start apply_cmds finish fst snd app map].
+  pose proof (never_from ins (RState [] [] false) 1 eq_refl eq_refl) as N.
+  destruct (run_from x_never tt (RState [] [] false) 1 ins) as [tr rf]. cbn [fst] in *. now subst tr.
+Qed.
+
+(* ------------------------------------------------------------------------ *)
+(* generate: the states of the while-loop                                      *)
+Fixpoint while_states (fuel : nat) (c : Z -> bool) (f : Z -> Z) (s : Z) : list Z :=
+  match fuel with
+  | O => []
+  | S k => if c s then s :: while_states k c f (f s) else []
+  end.
+
+Definition gen_tag (s : bool * Z * nat) : nat := snd s.
+
+Lemma generate_chain init cond iter : chain_ok (x_generate init cond iter) gen_tag.
+Proof.
+  intros [[first st] tag] now t. cbn [x_generate x_step].
+  destruct first; [destruct (cond st) as [[|]|e]; cbn; auto|].
+  destruct (iter st) as [st'|e]; [|cbn; auto]. destruct (cond st') as [[|]|e]; cbn; auto.
+Qed.
+
+Section Generate.
+Context (c : Z -> bool) (f : Z -> Z).
+Let cond := fun x : Z => @Ok bool (c x).
+Let iter := fun x : Z => @Ok Z (f x).
+
+Lemma generate_chain_trace init0 : forall fuel (first : bool) st tag k,
+  let s := if first then st else f st in
+  let ws := while_states fuel c f s in
+  length ws < fuel ->
+  temitted (chain_trace (x_generate init0 cond iter) gen_tag (first, st, tag) k (zeros (S (length ws))))
+  = nexts (indexed k ws) ++ [(k + length ws, Done)].
+Proof.
+  induction fuel as [|fuel IH]; intros first st tag k s ws Hlt; [cbn in Hlt; lia|].
+  subst ws. cbn [while_states] in *. destruct (c s) eqn:Hc.
+  - cbn [length] in *. rewrite zeros_S. cbn [chain_trace x_generate x_step gen_tag snd].
+    assert (E : (if first then @Ok Z st else iter st) = Ok s) by (subst s; destruct first; reflexivity).
+    rewrite E. unfold cond at 1. rewrite Hc. rewrite temitted_app2.
+    cbn [flat_map obs_of app fin_obs map].
+    specialize (IH false s (S tag) (S k)). cbn zeta in IH. cbn [length] in IH.
+    rewrite IH by lia. cbn [temitted flat_map snd fst app indexed nexts map].
+    f_equal. f_equal. f_equal. f_equal. lia.
+  - cbn [length zeros repeat chain_trace x_generate x_step gen_tag snd].
+    assert (E : (if first then @Ok Z st else iter st) = Ok s) by (subst s; destruct first; reflexivity).
+    rewrite E. unfold cond at 1. rewrite Hc. cbn. now rewrite Nat.add_0_r.
+Qed.
+
+(* generate(init, condition, iterate) emits the states of
+     s = init; while condition(s): yield s; s = iterate(s)
+   one per firing, and completes at the firing after the last (the loop is
+   assumed to exit: it uses fewer than [fuel] iterations) *)
+Theorem generate_spec init fuel :
+  let ws := while_states fuel c f init in
+  length ws < fuel ->
+  temitted (fst (run (x_generate init cond iter) (tick_ins 0 (zeros (S (length ws))))))
+  = nexts (indexed 1 ws) ++ [(S (length ws), Done)].
+Proof.
+  intros ws Hlt.
+  rewrite (chain_run0 _ _ (generate_chain init cond iter) (true, init, 0) [CTimer 0 0%Z]); try reflexivity.
+  rewrite temitted_app2.
+  replace (temitted (map (fun o : obs Z => (0, o)) (flat_map obs_of [CTimer 0 0%Z]))) with (@nil (nat * ev Z)) by reflexivity.
+  cbn [app]. apply (generate_chain_trace init fuel true init 0 1). exact Hlt.
+Qed.
+End Generate.
+
+(* with raising callbacks: the machine run equals the fuelled reference loop *)
+Fixpoint gen_ref (cond : Z -> res bool) (iter : Z -> res Z) (n : nat) (first : bool) (st : Z) (k : nat)
+  : list (nat * ev Z) :=
+  match n with
+  | O => []
+  | S n' =>
+      match (if first then Ok st else iter st) with
+      | Raise e => [(k, Err e)]
+      | Ok st' =>
+          match cond st' with
+          | Raise e => [(k, Err e)]
+          | Ok false => [(k, Done)]
+          | Ok true => (k, Next st') :: gen_ref cond iter n' false st' (S k)
+          end
+      end
+  end.
+
+Lemma generate_ref_trace init0 cond iter : forall n first st tag k,
+  temitted (chain_trace (x_generate init0 cond iter) gen_tag (first, st, tag) k (zeros n))
+  = gen_ref cond iter n first st k.
+Proof.
+  induction n as [|n IH]; intros first st tag k; [reflexivity|].
+  rewrite zeros_S. cbn [chain_trace x_generate x_step gen_tag snd gen_ref].
+  destruct (if first then @Ok Z st else iter st) as [st'|e]; [|reflexivity].
+  destruct (cond st') as [[|]|e]; try reflexivity.
+  rewrite temitted_app2, IH. reflexivity.
+Qed.
+
+Theorem generate_ref_spec init cond iter n :
+  temitted (fst (run (x_generate init cond iter) (tick_ins 0 (zeros n)))) = gen_ref cond iter n true init 1.
+Proof.
+  rewrite (chain_run0 _ _ (generate_chain init cond iter) (true, init, 0) [CTimer 0 0%Z]); try reflexivity.
+  rewrite temitted_app2.
+  replace (temitted (map (fun o : obs Z => (0, o)) (flat_map obs_of [CTimer 0 0%Z]))) with (@nil (nat * ev Z)) by reflexivity.
+  apply generate_ref_trace.
+Qed.
+
+(* ------------------------------------------------------------------------ *)
+(* generate_with_relative_time                                                 *)
+Definition gwrt_tag (s : bool * Z * option Z * nat) : nat := snd s.
+
+Lemma gwrt_chain init cond iter tm : chain_ok (x_gwrt init cond iter tm) gwrt_tag.
+Proof.
+  intros [[[first st] result] tag] now t. cbn [x_gwrt x_step].
+  assert (Ho : forallb simple (match result with Some r => [CEmit r] | None => [] end : list (cmd Z)) = true
+               /\ ctimers (match result with Some r => [CEmit r] | None => [] end : list (cmd Z)) = [])
+    by (destruct result; auto).
+  destruct Ho as [Ho1 Ho2].
+  assert (K : forall st', 
+    forallb simple (snd (fst (match cond st' with
+       | Raise e => ((false, st', result, tag), match result with Some r => [CEmit r] | None => [] end, Fail e)
+       | Ok false => ((false, st', None, tag), match result with Some r => [CEmit r] | None => [] end, Complete)
+       | Ok true => match tm st' with
+                    | Raise e => ((false, st', Some st', tag), match result with Some r => [CEmit r] | None => [] end, Fail e)
+                    | Ok d => ((false, st', Some st', S tag), match result with Some r => [CEmit r] | None => [] end ++ [CTimer (S tag) d], Cont)
+                    end
+       end))) = true
+    /\ match snd (match cond st' with
+       | Raise e => ((false, st', result, tag), match result with Some r => [CEmit r] | None => [] end, Fail e)
+       | Ok false => ((false, st', None, tag), match result with Some r => [CEmit r] | None => [] end, Complete)
+       | Ok true => match tm st' with
+                    | Raise e => ((false, st', Some st', tag), match result with Some r => [CEmit r] | None => [] end, Fail e)
+                    | Ok d => ((false, st', Some st', S tag), match result with Some r => [CEmit r] | None => [] end ++ [CTimer (S tag) d], Cont)
+                    end
+       end) with
+       | Cont => ctimers (snd (fst (match cond st' with
+           | Raise e => ((false, st', result, tag), match result with Some r => [CEmit r] | None => [] end, Fail e)
+           | Ok false => ((false, st', None, tag), match result with Some r => [CEmit r] | None => [] end, Complete)
+           | Ok true => match tm st' with
+                        | Raise e => ((false, st', Some st', tag), match result with Some r => [CEmit r] | None => [] end, Fail e)
+                        | Ok d => ((false, st', Some st', S tag), match result with Some r => [CEmit r] | None => [] end ++ [CTimer (S tag) d], Cont)
+                        end
+           end))) = [S tag]
+           /\ gwrt_tag (fst (fst (match cond st' with
+           | Raise e => ((false, st', result, tag), match result with Some r => [CEmit r] | None => [] end, Fail e)
+           | Ok false => ((false, st', None, tag), match result with Some r => [CEmit r] | None => [] end, Complete)
+           | Ok true => match tm st' with
+                        | Raise e => ((false, st', Some st', tag), match result with Some r => [CEmit r] | None => [] end, Fail e)
+                        | Ok d => ((false, st', Some st', S tag), match result with Some r => [CEmit r] | None => [] end ++ [CTimer (S tag) d], Cont)
+                        end
+           end))) = S tag
+       | _ => ctimers (snd (fst (match cond st' with
+           | Raise e => ((false, st', result, tag), match result with Some r => [CEmit r] | None => [] end, Fail e)
+           | Ok false => ((false, st', None, tag), match result with Some r => [CEmit r] | None => [] end, Complete)
+           | Ok true => match tm st' with
+                        | Raise e => ((false, st', Some st', tag), match result with Some r => [CEmit r] | None => [] end, Fail e)
+                        | Ok d => ((false, st', Some st', S tag), match result with Some r => [CEmit r] | None => [] end ++ [CTimer (S tag) d], Cont)
+                        end
+           end))) = []
+       end).
+  { intros st'. destruct (cond st') as [[|]|e]; cbn [fst snd]; auto.
+    destruct (tm st') as [d|e]; cbn [fst snd gwrt_tag]; auto.
+    rewrite simple_app, ctimers_app, Ho1, Ho2. auto. }
+  destruct first; [apply K|]. destruct (iter st) as [st'|e]; [apply K|cbn [fst snd]; auto].
+Qed.
+
+Lemma ttimers_group {B} k (cs : list (cmd B)) f :
+  ttimers (map (fun o => (k, o)) (flat_map obs_of cs ++ fin_obs f))
+  = flat_map (fun c => match c with CTimer t d => [(k, (t, d))] | _ => [] end) cs.
+Proof.
+  rewrite map_app, ttimers_app.
+  assert (E : ttimers (map (fun o : obs B => (k, o)) (fin_obs f)) = []) by (destruct f; reflexivity).
+  rewrite E, app_nil_r. unfold ttimers.
+  induction cs as [|c t IH]; [reflexivity|]. destruct c; cbn [flat_map obs_of map app fst snd]; rewrite ?IH; reflexivity.
+Qed.
+
+Section Gwrt.
+Context (c : Z -> bool) (f : Z -> Z) (d : Z -> Z).
+Let cond := fun x : Z => @Ok bool (c x).
+Let iter := fun x : Z => @Ok Z (f x).
+Let tm := fun x : Z => @Ok Z (d x).
+
+Lemma gwrt_chain_trace init0 : forall fuel (first : bool) st result tag k nows,
+  let s := if first then st else f st in
+  let ws := while_states fuel c f s in
+  length ws < fuel -> length nows = S (length ws) ->
+  let tr := chain_trace (x_gwrt init0 cond iter tm) gwrt_tag (first, st, result, tag) k nows in
+  temitted tr = (match result with Some r => [(k, Next r)] | None => [] end)
+                ++ nexts (indexed (S k) ws) ++ [(k + length ws, Done)]
+  /\ ttimers tr = map (fun p => (k + fst p, (S (tag + fst p), d (snd p)))) (indexed 0 ws).
+Proof.
+  induction fuel as [|fuel IH]; intros first st result tag k nows s ws Hlt Hn tr; [cbn in Hlt; lia|].
+  subst tr ws. cbn [while_states] in *.
+  assert (E : (if first then @Ok Z st else iter st) = Ok s) by (subst s; destruct first; reflexivity).
+  destruct nows as [|now rest]; [cbn in Hn; lia|].
+  destruct (c s) eqn:Hc.
+  - cbn [length] in *. cbn [chain_trace x_gwrt x_step gwrt_tag snd]. rewrite E.
+    assert (Ec : cond s = Ok true) by (unfold cond; now rewrite Hc). assert (Et : tm s = Ok (d s)) by reflexivity.
+    rewrite Ec, Et. rewrite temitted_app2, ttimers_app, temitted_group, ttimers_group.
+    specialize (IH false s (Some s) (S tag) (S k) rest). cbn zeta in IH.
+    destruct IH as [I1 I2]; [lia|lia|]. rewrite I1, I2. split.
+    + destruct result; cbn [cvals flat_map app map tfin indexed nexts fst snd]; rewrite ?app_nil_r;
+        repeat (f_equal; try lia).
+    + cbn [indexed map fst snd]. rewrite flat_map_app.
+      assert (Z0 : flat_map (fun c0 : cmd Z => match c0 with CTimer t d0 => [(k, (t, d0))] | _ => [] end)
+                     (match result with Some r => [CEmit r] | None => [] end) = []) by (destruct result; reflexivity).
+      rewrite Z0. cbn [flat_map app]. f_equal; [repeat (f_equal; try lia)|].
+      assert (G : forall (l : list Z) j,
+                map (fun p : nat * Z => (S k + fst p, (S (S tag + fst p), d (snd p)))) (indexed j l)
+                = map (fun p : nat * Z => (k + fst p, (S (tag + fst p), d (snd p)))) (indexed (S j) l)).
+      { induction l as [|x l IHl]; intros j; [reflexivity|]. cbn [indexed map fst snd].
+        f_equal; [repeat (f_equal; try lia)|]. apply (IHl (S j)). }
+      apply G.
+  - cbn [length] in *. destruct rest; [|cbn in Hn; lia].
+    cbn [chain_trace x_gwrt x_step gwrt_tag snd]. rewrite E.
+    assert (Ec : cond s = Ok false) by (unfold cond; now rewrite Hc). rewrite Ec.
+    rewrite app_nil_r, temitted_group, ttimers_group. split.
+    + destruct result; cbn; now rewrite Nat.add_0_r.
+    + destruct result; reflexivity.
+Qed.
+
+(* generate_with_relative_time(init, condition, iterate, time_mapper): the
+   first timer (tag 0, delay 0) only computes; for the i-th state x_i of the
+   while-loop, the timer scheduled at firing i+1 carries delay d(x_i) -- zero
+   included -- and x_i is emitted when THAT timer fires (firing i+2); the
+   completion comes with the last emission *)
+Theorem gwrt_spec init fuel nows :
+  let ws := while_states fuel c f init in
+  length ws < fuel -> length nows = S (length ws) ->
+  let tr := fst (run (x_gwrt init cond iter tm) (tick_ins 0 nows)) in
+  temitted tr = nexts (indexed 2 ws) ++ [(S (length ws), Done)]
+  /\ ttimers tr = (0, (0, 0%Z)) :: map (fun p => (S (fst p), (S (fst p), d (snd p)))) (indexed 0 ws).
+Proof.
+  intros ws Hlt Hn tr. subst tr.
+  rewrite (chain_run0 _ _ (gwrt_chain init cond iter tm) (true, init, None, 0) [CTimer 0 0%Z]); try reflexivity.
+  rewrite temitted_app2, ttimers_app.
+  destruct (gwrt_chain_trace init fuel true init None 0 1 nows Hlt Hn) as [I1 I2].
+  cbn zeta in I1, I2. rewrite I1, I2. split; reflexivity.
+Qed.
+End Gwrt.
+
+(* ------------------------------------------------------------------------ *)
+(* timer(d, p)                                                                *)
+Definition tp_tag (s : Z * nat) : nat := snd s.
+Definition tdp_tag (s : Z * Z * nat) : nat := snd s.
+
+Lemma timer_periodic_chain p : chain_ok (x_timer_periodic p) tp_tag.
+Proof. intros [count tag] now t. cbn. auto. Qed.
+
+Lemma timer_period_chain d p : chain_ok (x_timer_period d p) tdp_tag.
+Proof. intros [[dt count] tag] now t. cbn. auto. Qed.
+
+Lemma timer_periodic_trace p : forall nows count tag k,
+  let tr := chain_trace (x_timer_periodic p) tp_tag (count, tag) k nows in
+  temitted tr = nexts (indexed k (map (fun j => (count + Z.of_nat j)%Z) (seq 0 (length nows))))
+  /\ ttimers tr = map (fun j => (k + j, (S (tag + j), Z.max p 0))) (seq 0 (length nows)).
+Proof.
+  induction nows as [|now rest IH]; intros count tag k tr; subst tr; [split; reflexivity|].
+  cbn [chain_trace x_timer_periodic x_step tp_tag snd].
+  rewrite temitted_app2, ttimers_app, temitted_group, ttimers_group.
+  destruct (IH (count + 1)%Z (S tag) (S k)) as [I1 I2]. cbn zeta in I1, I2. rewrite I1, I2.
+  cbn [length seq map cvals flat_map app tfin indexed nexts fst snd]. split.
+  - f_equal; [repeat (f_equal; try lia)|]. rewrite <- seq_shift, map_map. unfold nexts. f_equal. f_equal.
+    apply map_ext. intros j. lia.
+  - f_equal; [repeat (f_equal; try lia)|]. rewrite <- seq_shift, map_map. apply map_ext. intros j.
+    repeat (f_equal; try lia).
+Qed.
+
+(* timer(p, p): k-th firing emits k; every timer has delay p *)
+Theorem timer_periodic_spec p nows :
+  let tr := fst (run (x_timer_periodic p) (tick_ins 0 nows)) in
+  temitted tr = nexts (indexed 1 (map Z.of_nat (seq 0 (length nows))))
+  /\ ttimers tr = (0, (0, Z.max p 0)) :: map (fun j => (S j, (S j, Z.max p 0))) (seq 0 (length nows)).
+Proof.
+  intros tr. subst tr.
+  rewrite (chain_run0 _ _ (timer_periodic_chain p) (0%Z, 0) [CTimer 0 (Z.max p 0)]); try reflexivity.
+  rewrite temitted_app2, ttimers_app. destruct (timer_periodic_trace p nows 0%Z 0 1) as [I1 I2].
+  cbn zeta in I1, I2. rewrite I1, I2. split; reflexivity.
+Qed.
+
+(* timer(d, p), d <> p, 0 <= d, 0 < p, firings on time (at d, d+p, d+2p, ...):
+   k-th firing emits k, first delay d, then always p *)
+Lemma timer_period_trace d p : (0 < p)%Z -> forall n dt count tag k,
+  let nows := map (fun j => (dt + Z.of_nat j * p)%Z) (seq 0 n) in
+  let tr := chain_trace (x_timer_period d p) tdp_tag (dt, count, tag) k nows in
+  temitted tr = nexts (indexed k (map (fun j => (count + Z.of_nat j)%Z) (seq 0 n)))
+  /\ ttimers tr = map (fun j => (k + j, (S (tag + j), p))) (seq 0 n).
+Proof.
+  intros Hp. induction n as [|n IH]; intros dt count tag k nows tr; subst tr nows; [split; reflexivity|].
+  cbn [seq map chain_trace x_timer_period x_step tdp_tag snd].
+  assert (E1 : Z.max p 0 = p) by lia. rewrite !E1.
+  assert (E2 : (0 <? p)%Z = true) by (apply Z.ltb_lt; lia). rewrite E2.
+  replace (dt + Z.of_nat 0 * p)%Z with dt by lia.
+  assert (E3 : (dt + p <=? dt)%Z = false) by (apply Z.leb_gt; lia). rewrite E3.
+  replace (Z.max (dt + p - dt) 0) with p by lia.
+  rewrite temitted_app2, ttimers_app, temitted_group, ttimers_group.
+  destruct (IH (dt + p)%Z (count + 1)%Z (S tag) (S k)) as [I1 I2]. cbn zeta in I1, I2.
+  assert (EN : map (fun j : nat => (dt + Z.of_nat j * p)%Z) (seq 1 n)
+               = map (fun j : nat => (dt + p + Z.of_nat j * p)%Z) (seq 0 n))
+    by (rewrite <- seq_shift, map_map; apply map_ext; intros j; lia).
+  rewrite EN, I1, I2. cbn [cvals flat_map app tfin indexed nexts fst snd map]. split.
+  - f_equal; [repeat (f_equal; try lia)|]. rewrite <- seq_shift, map_map. unfold nexts. f_equal. f_equal.
+    apply map_ext. intros j. lia.
+  - f_equal; [repeat (f_equal; try lia)|]. rewrite <- seq_shift, map_map. apply map_ext. intros j.
+    repeat (f_equal; try lia).
+Qed.
+
+Theorem timer_period_spec d p n : (0 <= d)%Z -> (0 < p)%Z ->
+  let nows := map (fun j => (d + Z.of_nat j * p)%Z) (seq 0 n) in
+  let tr := fst (run (x_timer_period d p) (tick_ins 0 nows)) in
+  temitted tr = nexts (indexed 1 (map Z.of_nat (seq 0 n)))
+  /\ ttimers tr = (0, (0, d)) :: map (fun j => (S j, (S j, p))) (seq 0 n).
+Proof.
+  intros Hd Hp nows tr. subst tr nows.
+  rewrite (chain_run0 _ _ (timer_period_chain d p) (d, 0%Z, 0) [CTimer 0 (Z.max d 0)]); try reflexivity.
+  rewrite temitted_app2, ttimers_app. destruct (timer_period_trace d p Hp n d 0%Z 0 1) as [I1 I2].
+  cbn zeta in I1, I2. rewrite I1, I2. replace (Z.max d 0) with d by lia. split; reflexivity.
+Qed.
+
+(* ------------------------------------------------------------------------ *)
+(* repeat_value                                                               *)
+Definition rv_tag (s : bool * option nat * nat) : nat := snd s.
+
+Lemma repeat_value_chain v rc : chain_ok (x_repeat_value v rc) rv_tag.
+Proof.
+  intros [[phase remaining] tag] now t. cbn [x_repeat_value x_step].
+  destruct phase; [|cbn; auto]. destruct remaining as [[|r]|]; cbn; auto.
+Qed.
+
+Lemma repeat_value_trace v rc : forall r tag k,
+  temitted (chain_trace (x_repeat_value v rc) rv_tag (true, Some r, tag) k (zeros (S (2 * r))))
+  = map (fun j => (k + 2 * j + 1, Next v)) (seq 0 r) ++ [(k + 2 * r, Done)].
+Proof.
+  induction r as [|r IH]; intros tag k.
+  - cbn. now rewrite Nat.add_0_r.
+  - replace (S (2 * S r)) with (S (S (S (2 * r)))) by lia.
+    change (zeros (S (S (S (2 * r))))) with (0%Z :: 0%Z :: zeros (S (2 * r))).
+    cbn [chain_trace x_repeat_value x_step rv_tag snd option_map pred].
+    rewrite !temitted_app2, !temitted_group, (IH (S (S tag)) (S (S k))).
+    cbn [cvals flat_map app tfin map seq]. f_equal; [f_equal; lia|].
+    rewrite <- seq_shift, map_map. f_equal; [|f_equal; f_equal; lia].
+    apply map_ext. intros j. f_equal. lia.
+Qed.
+
+(* repeat_value(v, n), n >= 0: v at the firings 2, 4, ..., 2n (concat's action
+   and return_value's action alternate), completion at firing 2n + 1 *)
+Theorem repeat_value_spec v c : (0 <= c)%Z ->
+  let n := Z.to_nat c in
+  temitted (fst (run (x_repeat_value v (Some c)) (tick_ins 0 (zeros (S (2 * n))))))
+  = map (fun j => (2 * j + 2, Next v)) (seq 0 n) ++ [(S (2 * n), Done)].
+Proof.
+  intros Hc n.
+  assert (E : repeat_count (Some c) = Some n).
+  { unfold repeat_count. destruct (Z.eqb_spec c (-1)); [lia|reflexivity]. }
+  rewrite (chain_run0 _ _ (repeat_value_chain v (Some c)) (true, Some n, 0) [CTimer 0 0%Z]);
+    try reflexivity; [|cbn [x_repeat_value x_start]; now rewrite E].
+  rewrite temitted_app2.
+  replace (temitted (map (fun o : obs Z => (0, o)) (flat_map obs_of [CTimer 0 0%Z]))) with (@nil (nat * ev Z)) by reflexivity.
+  cbn [app]. rewrite repeat_value_trace. f_equal. apply map_ext. intros j. f_equal. lia.
+Qed.
+
+Lemma emitted_of_temitted {B} (tr : list (nat * obs B)) : emitted tr = map snd (temitted tr).
+Proof.
+  unfold emitted, temitted. induction tr as [|[k o] t IH]; [reflexivity|].
+  destruct o; cbn [flat_map snd fst app map]; rewrite ?IH; reflexivity.
 Qed.
